@@ -91,6 +91,7 @@ class SrvExec(Exec):
         self.server = None
         self.invocations = []    # (tag, argument) of every call()
         self.waiting = []
+        self.open_streams = []
         self.released = set()
         self.state = {'stop': False, 'ncalls': 0}
         self.oracles = set(cfg.get('oracles', ['answers', 'shutdown']))
@@ -333,7 +334,12 @@ class SrvExec(Exec):
                         out.append((x, norm_val(y)))
                         if st_cfg.get('stop_after') is not None and len(out) >= st_cfg['stop_after']:
                             break
-                    it.close()
+                    if st_cfg.get('close') == 'after_exit':
+                        # the consumer just walks away (`break` out of a for loop): the generator stays suspended and is only
+                        # closed (garbage-collected) after the server has been left
+                        self.open_streams.append(it)
+                    else:
+                        it.close()
                     out.append('END')
                 except Exception as e:
                     out.append(('RAISED', norm_exc(e)))
@@ -357,6 +363,11 @@ class SrvExec(Exec):
             info['backlog'] = len(server._uid_to_futures) if cfg.get('drain_before_exit', True) else 0
             server.__exit__(None, None, None)
             self.server = None
+            for it in self.open_streams:
+                tc = s.now
+                it.close()
+                info['close_after_exit'] = max(info.get('close_after_exit', 0), s.now - tc)
+            self.open_streams = []
             self.settle()
             info['alive'] = self.live()
             results.append(res)
@@ -421,6 +432,10 @@ class SrvExec(Exec):
             if 'shutdown' in orc or 'timeouts' in orc:
                 if info['gather_alive'] is False:
                     return ('gather-thread-dead', f'gather thread died before shutdown: {r.thread_excs} {info}')
+            if 'shutdown' in orc and info.get('close_after_exit', 0) > 60:
+                return ('abandoned-stream-close-stalls-after-exit',
+                        f'closing the abandoned stream after Server.__exit__ took {info["close_after_exit"]:.1f} virtual seconds '
+                        '(its feeder thread sat in a wait that nothing will ever satisfy)')
             if 'shutdown' in orc and info['alive']:
                 return ('thread-leak:' + ','.join(info['alive']), f'threads alive after __exit__: {info["alive"]}')
             if ('backlog' in orc or 'answers' in orc) and info['backlog'] != 0:
